@@ -1,6 +1,9 @@
 """Corpus: enum returning code (deterministic)."""
 import enum
 
+# the enum class is deliberately not listed: generated tests still refer to its members
+__all__ = ["pick", "is_warm"]
+
 
 class Color(enum.Enum):
     RED = 1
